@@ -82,6 +82,9 @@ type vfSub struct{ X int }
 
 type vfKey string
 
+// an exported struct type embedded in the state (an anonymous field is carried like any other exported field)
+type VfAudit struct{ Visits int }
+
 type vfState struct {
 	// fields that only have to survive the checkpoint round trip unchanged (pointers nil and non-nil, containers)
 	NilP   *int
@@ -92,6 +95,7 @@ type vfState struct {
 	NilSub *vfSub
 	RK     map[vfKey]int // a map keyed by a named string type
 	Owner  string        // id of the run whose context the state generator was called with
+	VfAudit
 
 	Trail   []string
 	Count   int // number of critical sections performed on this state (read, yield, write back: lost updates show)
@@ -103,14 +107,15 @@ func init() {
 	_ = RegisterSerializableType[vfState]("_verif_engine_state")
 	_ = RegisterSerializableType[vfSub]("_verif_engine_substate")
 	_ = RegisterSerializableType[vfKey]("_verif_engine_key")
+	_ = RegisterSerializableType[VfAudit]("_verif_engine_audit")
 }
 
 func vfNewState() *vfState {
 	seven := 7
-	return &vfState{P: &seven, M: map[string]int{"k": 1}, L: []string{"u", "v"}, Sub: &vfSub{X: 5}, RK: map[vfKey]int{"role": 3}}
+	return &vfState{P: &seven, M: map[string]int{"k": 1}, L: []string{"u", "v"}, Sub: &vfSub{X: 5}, RK: map[vfKey]int{"role": 3}, VfAudit: VfAudit{Visits: 9}}
 }
 
-// digest of the carried fields; the fresh value is "true|7|1|u,v|5|true|3|own"
+// digest of the carried fields; the fresh value is "true|7|1|u,v|5|true|3|9|own"
 func (s *vfState) digest(cur string) string {
 	p, sub := "nil", "nil"
 	if s.P != nil {
@@ -123,7 +128,7 @@ func (s *vfState) digest(cur string) string {
 	if s.Owner != cur {
 		own = "foreign" // generated with another context than the run's own (e.g. the one Compile was called with, or another run's)
 	}
-	return fmt.Sprintf("%v|%s|%d|%s|%s|%v|%d|%s", s.NilP == nil, p, s.M["k"], strings.Join(s.L, ","), sub, s.NilSub == nil, s.RK["role"], own)
+	return fmt.Sprintf("%v|%s|%d|%s|%s|%v|%d|%d|%s", s.NilP == nil, p, s.M["k"], strings.Join(s.L, ","), sub, s.NilSub == nil, s.RK["role"], s.Visits, own)
 }
 
 type vfErr struct{ Node string }
